@@ -34,6 +34,9 @@ def seqform(I, n: Node, depth=0) -> Optional[list]:
     if n.op == "ListComp":
         return [("map", n.args[0], n.args[1], tuple(n.args[2:]))]
     if n.op == "ListOf":
+        if n.extra and n.extra.get("seq") is not None and len(n.args) == 1:
+            # map(f, xs, ...) : one element f(x, ...) per element of xs (zip of the sequences), in order
+            return [("map", n.extra["seq"], n.args[0], ())]
         return None
     if n.op == "BinOp" and n.attr == "Add":
         a, b = seqform(I, n.args[0], depth + 1), seqform(I, n.args[1], depth + 1)
